@@ -126,6 +126,13 @@ func interpolateMapValues[K comparable, V any, M ~map[K]V](tf stringTransformer,
 // interpolateMap applies interpolateAny over both keys and values of any type
 // of map. The map is altered in-place.
 func interpolateMap[K comparable, V any, M ~map[K]V](tf stringTransformer, m M) error {
+	// Interpolate into a separate list first: inserting renamed keys into m
+	// while ranging over it could visit (and interpolate) them a second time.
+	type pair struct {
+		k K
+		v V
+	}
+	pairs := make([]pair, 0, len(m))
 	for k, v := range m {
 		// We interpolate both keys and values.
 		intk, err := interpolateAny(tf, k)
@@ -138,12 +145,13 @@ func interpolateMap[K comparable, V any, M ~map[K]V](tf stringTransformer, m M) 
 		if err != nil {
 			return err
 		}
+		pairs = append(pairs, pair{intk, intv})
+	}
 
-		// If the key changed due to interpolation, delete the old key.
-		if k != intk {
-			delete(m, k)
-		}
-		m[intk] = intv
+	// Replace the old keys (some may have changed) with the interpolated pairs.
+	clear(m)
+	for _, p := range pairs {
+		m[p.k] = p.v
 	}
 	return nil
 }
